@@ -93,6 +93,41 @@ theorem sweep_step (cost contribution D : Rat) (s : Sup) (rest : List Sup) :
   have h : cost - contribution - (s.m : Rat) * s.b = cost - (contribution + (s.m : Rat) * s.b) := by ring
   rw [h]
 
+/-! ### the supporter sweep as a whole (statement-level leaf) -/
+
+/-- what the sweep of project `p` leaves behind: its price (`project.affordability`), the best price of the round so far and the
+    projects tied at it — `r` is the price the model's `sweep` finds (`none`: no supporter can pay, nothing changes) -/
+def sweepOutcome (p : Nat) (aff : Rat) (best : Option Rat) (tied : List Nat) : Option Rat → Rat × Option Rat × List Nat
+  | none => (aff, best, tied)
+  | some r =>
+    if Gen.C02.ltInf r best = true then (r, some r, [p])
+    else if Gen.C02.eqInf r best = true then (r, best, tied ++ [p])
+    else (r, best, tied)
+
+/-- the WHOLE inner loop of `mes_inner_algo` (`for i in project.supporter_indices`, regenerated as `Gen.C02.sweepLoop`): run on the
+    sorted supporters (money, utility, multiplicity) from `current_contribution = c`, `denominator = d` it computes exactly the
+    price of the model's `sweep`, stores it as the project's affordability, and updates the round's best price / tied list as
+    `sweepOutcome` says — the test precedes the update of the running totals, the first supporter who can pay ends the loop -/
+theorem sweepLoop (cost : Rat) (p : Nat) : ∀ (sups : List Sup) (c d aff : Rat) (best : Option Rat) (tied : List Nat),
+    (fun r => (r.2.2.1, r.2.2.2.1, r.2.2.2.2))
+        (Gen.C02.sweepLoop cost p c d aff best tied (sups.map (fun s => (s.b, s.u, ((s.m : Nat) : Rat))))) =
+      sweepOutcome p aff best tied (sweep (cost - c) d sups)
+  | [], c, d, aff, best, tied => by simp [Gen.C02.sweepLoop, sweep, sweepOutcome]
+  | s :: rest, c, d, aff, best, tied => by
+    rw [List.map_cons, Gen.C02.sweepLoop, sweep]
+    by_cases h : (cost - c) / d * s.u ≤ s.b
+    · simp only [h, decide_true, if_true, sweepOutcome]
+      by_cases h1 : Gen.C02.ltInf ((cost - c) / d) best = true
+      · simp [h1]
+      · by_cases h2 : Gen.C02.eqInf ((cost - c) / d) best = true
+        · simp [h1, h2]
+        · simp [h1, h2]
+    · simp only [h, decide_false, if_false, Bool.false_eq_true]
+      have ih := sweepLoop cost p rest (c + (s.m : Rat) * s.b) (d - (s.m : Rat) * s.u) aff best tied
+      have hc : cost - (c + (s.m : Rat) * s.b) = cost - c - (s.m : Rat) * s.b := by ring
+      rw [hc] at ih
+      exact ih
+
 /-- the first factor tried is the project's initial affordability `frac(p.cost, total_sat)`
     (`current_contribution = 0`, `denominator = total_sat`) -/
 theorem initialAffordability (cost D : Rat) (s : Sup) (rest : List Sup) :
